@@ -315,6 +315,17 @@ Lemma boundary_in_vis U c fg vis r b : wf_dag (ug U) = true ->
   In b (boundary U (missing U c fg vis r)) -> In b vis.
 Proof. intros W H. destruct (missing_ok U c fg vis r W) as [_ [_ H3]]. apply H3. exact H. Qed.
 
+Lemma client_keys_eq U fg vis r : client_keys U fg vis r = missing_full U vis r.
+Proof. unfold client_keys. destruct fg; reflexivity. Qed.
+
+Lemma client_nil_missing_nil U c fg vis r : wf_dag (ug U) = true ->
+  client_keys U fg vis r = [] -> missing U c fg vis r = [].
+Proof.
+  intros W E. rewrite client_keys_eq in E. apply no_elements_nil. intros x Hx.
+  apply (missing_not_vis U c fg vis r x W) in Hx. apply (missing_full_spec U vis r x W) in Hx.
+  rewrite E in Hx. contradiction.
+Qed.
+
 Lemma missing_ghost_nil U c fg vis r : wf_dag (ug U) = true -> srcp U r = false ->
   missing U c fg vis r = [].
 Proof.
@@ -358,20 +369,23 @@ Lemma fetch_cases U c F T fg r out n T' : wf_dag (ug U) = true -> fetch U c F T 
   (out = FOk /\ srcp U r = true /\ incompat c = false /\
      T' = insert U c T (missing U c fg (vis_of F T) r) /\ n = length (missing U c fg (vis_of F T) r)).
 Proof.
-  unfold fetch, transfer. intros W H.
+  unfold fetch, transfer2. intros W H.
   destruct (negb (srcp U r) && (fg || negb (memb r (vis_of F T)))) eqn:E.
   - inversion H; subst. left. split; [discriminate | reflexivity].
-  - destruct (srcp U r) eqn:S.
-    + destruct (missing U c fg (vis_of F T) r) as [|m M] eqn:EM.
-      * inversion H; subst. right. left. repeat split; try reflexivity. right. reflexivity.
-      * destruct (incompat c) eqn:I.
-        -- inversion H; subst. left. split; [discriminate | reflexivity].
-        -- inversion H; subst. right. right. repeat split; reflexivity.
-    + cbn [negb andb] in E. apply orb_false_iff in E. destruct E as [E1 E2].
-      apply negb_false_iff in E2. apply memb_In in E2.
-      rewrite (missing_ghost_nil U c fg _ r W S) in H. inversion H; subst. right. left.
-      repeat split; try reflexivity; [apply (missing_ghost_nil U c false _ r W S)|].
-      left. repeat split; try reflexivity. exact E2.
+  - assert (Hr : srcp U r = false /\ fg = false /\ In r (vis_of F T) \/ srcp U r = true).
+    { destruct (srcp U r) eqn:S; [right; reflexivity|left]. cbn [negb andb] in E.
+      apply orb_false_iff in E. destruct E as [E1 E2]. apply negb_false_iff in E2. apply memb_In in E2.
+      repeat split; assumption. }
+    destruct (client_keys U fg (vis_of F T) r) as [|k K] eqn:EK.
+    + inversion H; subst. right. left. repeat split; try reflexivity; [|exact Hr].
+      apply (client_nil_missing_nil U c fg _ r W EK).
+    + destruct (incompat c) eqn:I.
+      * inversion H; subst. left. split; [discriminate | reflexivity].
+      * destruct (missing U c fg (vis_of F T) r) as [|m M] eqn:EM.
+        -- inversion H; subst. right. left. repeat split; try reflexivity. exact Hr.
+        -- inversion H; subst. right. right. repeat split; try reflexivity.
+           destruct (srcp U r) eqn:S; [reflexivity|].
+           rewrite (missing_ghost_nil U c fg _ r W S) in EM. discriminate.
 Qed.
 
 Lemma revs_insert U c T M : revs (insert U c T M) = union M (revs T).
@@ -395,7 +409,7 @@ Theorem fetch_preserves U c F T fg r out n T' : fetch U c F T fg r = (out, n, T'
   incl (revs T) (revs T') /\ incl (invs T) (invs T') /\ incl (texts T) (texts T') /\
   (out <> FOk -> T' = T).
 Proof.
-  unfold fetch, transfer. intros H.
+  unfold fetch, transfer2. intros H.
   assert (Ins : forall M, incl (revs T) (revs (insert U c T M)) /\ incl (invs T) (invs (insert U c T M)) /\
                           incl (texts T) (texts (insert U c T M))).
   { intros M. repeat split.
@@ -404,11 +418,13 @@ Proof.
     - intros x Hx. apply In_texts_insert. right. exact Hx. }
   destruct (negb (srcp U r) && (fg || negb (memb r (vis_of F T)))).
   - inversion H; subst. repeat split; try apply incl_refl.
-  - destruct (missing U c fg (vis_of F T) r) as [|m M] eqn:EM.
+  - destruct (client_keys U fg (vis_of F T) r) as [|k K].
     + inversion H; subst. repeat split; try apply incl_refl.
     + destruct (incompat c).
       * inversion H; subst. repeat split; try apply incl_refl.
-      * inversion H; subst. destruct (Ins (m :: M)) as [I1 [I2 I3]]. repeat split; try assumption. congruence.
+      * destruct (missing U c fg (vis_of F T) r) as [|m M] eqn:EM.
+        -- inversion H; subst. repeat split; try apply incl_refl.
+        -- inversion H; subst. destruct (Ins (m :: M)) as [I1 [I2 I3]]. repeat split; try assumption. congruence.
 Qed.
 
 (* completeness.  Always: every revision reached from r without passing through a revision the
@@ -466,12 +482,22 @@ Proof.
     rewrite sweep_stuck; [|intros x [<-|[]]; exact Hr].
     cbn [filter]. rewrite S. cbn [andb]. apply memb_In in Hr. rewrite Hr. reflexivity. }
   split; [exact EM|].
+  assert (I : client_keys U fg (vis_of F T') r <> [] -> incompat c = false).
+  { intros NK.
+    destruct (fetch_cases U c F T fg r FOk n T' W H) as [[N _]|[[_ [E _]]|[_ [_ [I _]]]]]; [congruence| |exact I]; subst T'.
+    revert H. unfold fetch, transfer2.
+    destruct (negb (srcp U r) && (fg || negb (memb r (vis_of F T)))); [discriminate|].
+    destruct (client_keys U fg (vis_of F T) r); [congruence|].
+    destruct (incompat c); [discriminate | reflexivity]. }
+  assert (Fin : transfer2 U c T' (client_keys U fg (vis_of F T') r) (missing U c fg (vis_of F T') r) = (FOk, 0, T')).
+  { unfold transfer2. rewrite EM. destruct (client_keys U fg (vis_of F T') r) eqn:EK; [reflexivity|].
+    rewrite I; [reflexivity | discriminate]. }
   destruct (srcp U r) eqn:S.
-  - unfold fetch, transfer. rewrite S. cbn [negb andb]. rewrite EM. reflexivity.
+  - unfold fetch. rewrite S. cbn [negb andb]. exact Fin.
   - destruct (fetch_cases U c F T fg r FOk n T' W H) as [[N _]|[[_ [E [_ [_ D]]]]|[_ [S' _]]]]; [congruence| |congruence]; subst T'.
     destruct D as [[_ [Ef Hv]]|S']; [|congruence]. subst fg.
-    unfold fetch, transfer. rewrite S. cbn [negb andb orb].
-    apply memb_In in Hv. rewrite Hv. cbn [negb]. rewrite EM. reflexivity.
+    unfold fetch. rewrite S. cbn [negb andb orb].
+    apply memb_In in Hv. rewrite Hv. cbn [negb]. exact Fin.
 Qed.
 
 Lemma full_b_spec U R : full_b U R = true <-> full U R.
